@@ -68,9 +68,15 @@ func (d replayData) Bytes(name string, n int) string {
 
 func findDriver(verif string, o *ObligResult) (string, string) {
 	cands := []string{sanitize(o.Name)}
-	// unit-level driver: strip the label
-	if i := strings.LastIndex(o.Name, "."); i > 0 {
-		cands = append(cands, sanitize(o.Name[:i]))
+	// unit-level driver: strip label components one by one
+	name := o.Name
+	for k := 0; k < 3; k++ {
+		i := strings.LastIndex(name, ".")
+		if i <= 0 {
+			break
+		}
+		name = name[:i]
+		cands = append(cands, sanitize(name))
 	}
 	for _, c := range cands {
 		matches, _ := filepath.Glob(filepath.Join(verif, "replay", "*", c+".go.tmpl"))
